@@ -127,7 +127,9 @@ impl IOQueue {
     /// Drop all but last chunks
     pub fn clear_but_last(&mut self) {
         if self.chunks.len() > 1 {
-            self.chunks.drain(1..);
+            for chunk in self.chunks.drain(1..) {
+                self.length -= chunk.len();
+            }
         }
     }
 
